@@ -278,8 +278,8 @@ int main(int argc, char** argv) {
   run_class(product_adapter<PPL::Domain_Product<PPL::C_Polyhedron, PPL::Grid>::Congruences_Product>("Congruences_Product<C_Polyhedron,Grid>"), depth);
   run_class(product_adapter<PPL::Domain_Product<PPL::BD_Shape<mpq_class>, PPL::Grid>::Shape_Preserving_Product>("Shape_Preserving_Product<BD_Shape<mpq_class>,Grid>"), depth);
 #elif VF_GROUP == 12     // solver states with solution trees / integer variables
-  run_class(pip_tree_adapter(), depth + 1);
-  run_class(mip_int_adapter(), ARGS.thorough() ? depth + 1 : depth);
+  run_class(pip_tree_adapter(), depth);     // (re-solving crashes of the ORIGINAL, owned by C07, restart the BFS: no extra depth here)
+  run_class(mip_int_adapter(), depth + 1);
 #else
 #error "VF_GROUP not set"
 #endif
